@@ -128,6 +128,31 @@ PROPS["C14"] = {
     "abnormal_exit_is_violation": True,
 }
 
+PROPS["C15"] = {
+    "engine": "roundtrip", "level": "exploration", "evaluations": ["layouts_round_tripped"],
+    "rule": "one evaluation = one basic layout written by the real write_layout_to_global_config to /etc/totalmapper.json (a tmpfs mounted over /etc in a private mount namespace) and read back by the real load_layout_from_file; mappings must be equal, in order; "
+            "exhaustive over the key codes (each as trigger, output, repeat key and absorbed modifier), plus the converter's output for the corpus and for generated shorthand programs, plus random basic layouts over all key codes with empty outputs, 0-3 key chords and extreme i32 repeat parameters; distinct = distinct layouts",
+    "floors": {"quick": {"per_key_code": 484, "converted_programs": 40000, "random_basic_layouts": 40000, "mappings_with_absorbing": 10000, "special_with_empty_chord": 1000, "ran_in_private_namespace": 16},
+               "thorough": {"per_key_code": 484, "converted_programs": 600000, "random_basic_layouts": 600000, "ran_in_private_namespace": 16}},
+    "assumptions": ["a tmpfs over /etc in a private mount namespace stands in for the real /etc (if the namespace cannot be created the same serialiser is used through a temp file and the evidence says so; the floor then fails)"],
+    "level_text": "End-to-end differential on the real save and load code paths, exhaustive over the 484 key codes, sampled over layouts.",
+    "level_note": "Trusted: the write_layout_to_global_config wrapper hook, PartialEq on Mapping.",
+    "design_ref": "3 C15", "technique": "runtime monitoring: round-trip monitor through the real save and load paths in a private mount namespace, exhaustive over key codes",
+    "exhaustive_counter": "per_key_code", "exhaustive_text": "all key codes the enum knows",
+}
+PROPS["C16"] = {
+    "engine": "devices", "level": "exploration", "evaluations": ["texts", "e2e_all_keyboards_runs", "e2e_dev_file_runs", "e2e_list_keyboards_runs"],
+    "rule": "one evaluation = one generated /proc/bus/input/devices text (1-9 entries drawn from 33 realistic entries, renumbered, with names / key masks / event masks swapped and any field but the I: header dropped) through both real extractors (hook level), or one run of the real binary "
+            "(list_keyboards, remap --all-keyboards --verbose, remap --only-if-keyboard --dev-file per device) in a private mount namespace with that text bound over /proc/bus/input/devices and fabricated /sys/devices and /dev/input; distinct = distinct texts",
+    "floors": {"quick": {"keyboard_entries_right_after_an_entry_with_a_missing_field": 5000, "exclude_sets_matching_1_device": 5000, "e2e_all_keyboards_runs": 500, "e2e_dev_file_runs": 2000, "e2e_virtual_keyboard_entries": 20, "e2e_excluded_keyboard_entries": 50, "ran_in_private_namespace": 16},
+               "thorough": {"keyboard_entries_right_after_an_entry_with_a_missing_field": 50000, "e2e_all_keyboards_runs": 10000, "e2e_dev_file_runs": 50000, "ran_in_private_namespace": 16}},
+    "assumptions": ["entries are delimited by the I: line, which the kernel always prints", "an entry's own classification (the extractor run on that entry alone) defines keyboard-like", "glob semantics of --exclude: * any sequence, ? one character, whole-name match"],
+    "level_text": "Metamorphic (entry alone vs in context) and differential (two extractors, two CLI routes) monitors plus an independent glob matcher; the CLI routes are observed on the real binary in a fabricated namespace.",
+    "level_note": "Trusted: the extractor / exclusion wrapper hooks, the parsing of the binary's --verbose output, the fabricated /proc, /sys and /dev trees.",
+    "design_ref": "3 C16", "technique": "runtime monitoring: metamorphic + differential monitors at hook level and on the real binary in a private mount namespace",
+    "needs_real_binary": True,
+}
+
 ENGINES = [
     {"name": "mapper", "path": "/verif/harness/src/mapper_mon.rs", "serves_properties": ["C01", "C02", "C03", "C04", "C05", "C06", "C07", "C08", "C09", "C19"],
      "kind_free_text": "online monitors around Mapper::step/release_all; seeded random walks with frontier restarts from hook snapshots"},
@@ -141,6 +166,10 @@ ENGINES = [
      "kind_free_text": "real parser+converter against the independent reference expander of refexpand.rs"},
     {"name": "load", "path": "/verif/harness/src/load_mon.rs", "serves_properties": ["C14"],
      "kind_free_text": "panic monitor around load_layout_from_file, Mapper::for_layout and Mapper::step"},
+    {"name": "roundtrip", "path": "/verif/harness/src/roundtrip_mon.rs", "serves_properties": ["C15"],
+     "kind_free_text": "real save path + real load path over a tmpfs /etc in a private mount namespace"},
+    {"name": "devices", "path": "/verif/harness/src/devices_mon.rs", "serves_properties": ["C16"],
+     "kind_free_text": "the two real device-list extractors at hook level; the real binary in a fabricated /proc,/sys,/dev namespace"},
 ]
 
 NOT_APPLICABLE = [
